@@ -395,6 +395,7 @@ type signProver struct {
 	c      *Ctx
 	assume map[ssa.Value]bool
 	fnMemo map[*ssa.Function]int // 0 unknown, 1 proving (assume), 2 proved, 3 failed
+	fields map[*types.Var]int    // same, for "every store into this unexported field is non-negative"
 	why    string
 }
 
@@ -527,6 +528,9 @@ func (p *signProver) nonNeg(v ssa.Value, at *ssa.BasicBlock, depth int) bool {
 	case *ssa.Phi:
 		p.assume[x] = true
 		for i, e := range x.Edges {
+			if edgeNonNeg(e, x.Block().Preds[i], x.Block()) {
+				continue // `if e < 0 { e = 0 }`: on the edge that skips the assignment e is not negative
+			}
 			if !p.nonNeg(e, x.Block().Preds[i], depth+1) {
 				delete(p.assume, x)
 				return false
@@ -540,10 +544,46 @@ func (p *signProver) nonNeg(v ssa.Value, at *ssa.BasicBlock, depth int) bool {
 		}
 		return p.nonNeg(x.X, at, depth+1)
 	case *ssa.Extract:
+		// one of several results of a function of the repository: every return of it is looked at
+		if call, isC := x.Tuple.(*ssa.Call); isC {
+			if f := call.Call.StaticCallee(); f != nil && p.c.isRepoFn(f) && f.Blocks != nil && depth < 30 {
+				return p.fnNonNeg(f, x.Index, depth+1)
+			}
+		}
 		p.why = fmt.Sprintf("%s (a count handed back by another writer) has no known sign", exprFP(x, 2))
 		return false
 	case *ssa.UnOp:
 		if x.Op == token.MUL {
+			// an unexported integer field starts at zero and holds what the package stores in it: non-negative if
+			// every store is (a field's own value may take part: assumed while its stores are looked at)
+			if _, f, _ := fieldOf(x.X); f != nil && !f.Exported() && p.fields != nil && depth < 30 {
+				switch p.fields[f] {
+				case 1, 2:
+					return true
+				case 3:
+					p.why = fmt.Sprintf(".%s has no known sign", f.Name())
+					return false
+				}
+				p.fields[f] = 1
+				okAll := true
+				for _, fn := range p.c.Funcs {
+					if !p.c.isRepoFn(fn) {
+						continue
+					}
+					for _, st := range storesToField(fn, f) {
+						if !p.nonNeg(st.Val, st.Block(), depth+1) {
+							okAll = false
+						}
+					}
+				}
+				if okAll {
+					p.fields[f] = 2
+					return true
+				}
+				p.fields[f] = 3
+				p.why = fmt.Sprintf(".%s has no known sign: %s", f.Name(), p.why)
+				return false
+			}
 			// load of a spilled local: all stores
 			if al, isA := x.X.(*ssa.Alloc); isA {
 				okAll, n := true, 0
@@ -561,6 +601,30 @@ func (p *signProver) nonNeg(v ssa.Value, at *ssa.BasicBlock, depth int) bool {
 			}
 		}
 	case *ssa.Parameter:
+		// a private function's parameter is what its callers hand in: non-negative if it is at every call
+		if f := x.Parent(); f != nil && p.c.isRepoFn(f) && !f.Object().Exported() && depth < 30 {
+			if node := p.c.Graph().Nodes[f]; node != nil && len(node.In) > 0 {
+				idx := paramIndex(f, x)
+				okAll := idx >= 0
+				for _, e := range node.In {
+					if e.Site == nil || e.Site.Common().StaticCallee() != f || idx >= len(e.Site.Common().Args) {
+						okAll = false
+						break
+					}
+					if !p.nonNeg(e.Site.Common().Args[idx], e.Site.Block(), depth+1) {
+						okAll = false
+						break
+					}
+				}
+				if okAll {
+					return true
+				}
+				if p.why != "" {
+					p.why = fmt.Sprintf("the parameter %s is not non-negative at every call: %s", x.Name(), p.why)
+					return false
+				}
+			}
+		}
 		p.why = fmt.Sprintf("the parameter %s has no known sign", x.Name())
 		return false
 	}
@@ -572,6 +636,22 @@ func (p *signProver) nonNeg(v ssa.Value, at *ssa.BasicBlock, depth int) bool {
 
 // fnNonNeg: result #idx of f is non-negative on every return.
 func (p *signProver) fnNonNeg(f *ssa.Function, idx int, depth int) bool {
+	if idx != 0 {
+		// results other than the first are not memoised: looked at afresh (the depth bound ends a recursion)
+		for _, b := range f.Blocks {
+			r, isR := b.Instrs[len(b.Instrs)-1].(*ssa.Return)
+			if !isR || idx >= len(r.Results) {
+				continue
+			}
+			if !p.nonNeg(resolveSpill(r.Results[idx], r), b, depth+1) {
+				if p.why != "" {
+					p.why = fmt.Sprintf("%s returns at %s a value not shown non-negative: %s", p.c.FnName(f), p.c.InstrPos(r), p.why)
+				}
+				return false
+			}
+		}
+		return true
+	}
 	switch p.fnMemo[f] {
 	case 1, 2:
 		return true
@@ -615,7 +695,7 @@ func ruleIndentNonNeg(c *Ctx) []Obligation {
 		if n > 1 {
 			con = fmt.Sprintf("%s #%d", con, n)
 		}
-		p := &signProver{c: c, assume: map[ssa.Value]bool{}, fnMemo: map[*ssa.Function]int{}}
+		p := &signProver{c: c, assume: map[ssa.Value]bool{}, fnMemo: map[*ssa.Function]int{}, fields: map[*types.Var]int{}}
 		v := resolveSpill(r.Results[0], r)
 		if p.nonNeg(v, b, 0) {
 			obs = append(obs, ok(R, con, c.InstrPos(r), "sign analysis: constants, lengths, sums of non-negatives, values under a dominating > 0 / >= 0 test, loop variables by induction"))
@@ -1066,6 +1146,33 @@ func storeAfter(read ssa.Instruction, f *types.Var) bool {
 				return true
 			}
 		}
+	}
+	return false
+}
+
+// edgeNonNeg: the edge pred → join is taken only when e >= 0 (pred ends in a test of e against zero).
+func edgeNonNeg(e ssa.Value, pred, join *ssa.BasicBlock) bool {
+	if len(pred.Instrs) == 0 || len(pred.Succs) != 2 || pred.Succs[0] == pred.Succs[1] {
+		return false
+	}
+	ifi, isIf := pred.Instrs[len(pred.Instrs)-1].(*ssa.If)
+	if !isIf {
+		return false
+	}
+	bo, isB := ifi.Cond.(*ssa.BinOp)
+	if !isB || bo.X != e {
+		return false
+	}
+	k, isK := constInt(bo.Y)
+	if !isK || k != 0 {
+		return false
+	}
+	onTrue := pred.Succs[0] == join
+	switch bo.Op {
+	case token.LSS:
+		return !onTrue
+	case token.GEQ:
+		return onTrue
 	}
 	return false
 }
